@@ -5,7 +5,7 @@ VERUS_UNITS = {
     'sketch': dict(template='contracts/sketch.rs', props=['C14', 'C08', 'C13'], rlimit=30),
     'config': dict(template='contracts/config.rs', props=['C17', 'C05', 'C06', 'C08'], rlimit=30),
     'sync': dict(template='contracts/sync.rs', props=['C01', 'C03', 'C04', 'C05', 'C06', 'C07', 'C08', 'C10', 'C17'], rlimit=30),
-    'udeques': dict(template='contracts/udeques.rs', props=['C01', 'C05', 'C07', 'C08', 'C10', 'C11', 'C12', 'C13', 'C17'], rlimit=30),
+    'udeques': dict(template='contracts/udeques.rs', props=['C01', 'C03', 'C05', 'C07', 'C08', 'C10', 'C11', 'C12', 'C13', 'C17'], rlimit=30),
     'unsync': dict(template='contracts/unsync.rs', props=['C01', 'C03', 'C04', 'C05', 'C06', 'C07', 'C08', 'C10', 'C11', 'C12', 'C13', 'C14', 'C15', 'C17'], rlimit=50),
 }
 
@@ -22,7 +22,7 @@ KANI_UNITS = {
             dict(name='window_push_back', tags=['C08', 'C11', 'C12'], function='Deque::push_back', what='local-window pointer contract of Deque::push_back (empty / tail is head / long list): complete for one operation'),
             dict(name='window_pop_front', tags=['C08', 'C11'], function='Deque::pop_front', what='local-window pointer contract of Deque::pop_front: the head is handed out as a Box exactly once: complete for one operation'),
             dict(name='seq_3x3', tags=['C08', 'C11', 'C12'], function='Deque', bounded='3 nodes x 3 symbolic operations, unwind 10', what='operation sequences on the real list with a structural walker after every step and Drop at the end', timeout=1500),
-            dict(name='deques_tagged_rc', tags=['C08', 'C11', 'C07'], function='unsync::Deques', bounded='2 entries, 1 symbolic move, unwind 6', what='tagged-pointer region dispatch never reaches unreachable!/panic!; key clones released exactly when nodes are unlinked (Rc::strong_count)', timeout=1500),
+            dict(name='deques_tagged_rc', tags=['C08', 'C11'], function='unsync::Deques', bounded='2 entries, 1 symbolic move, unwind 6', what='tagged-pointer region dispatch never reaches unreachable!/panic!; key clones released exactly when nodes are unlinked (Rc::strong_count)', timeout=1500),
             dict(name='weigh_defaults_to_one', tags=['C17'], function='weigh', what='weigh(None, k, v) == 1 for all k, v: complete'),
             dict(name='weigh_calls_the_weigher_once_with_the_pair', tags=['C17', 'C10'], function='weigh', what='weigh(Some(w), k, v) calls the boxed weigher exactly once with (k, v) and returns its result: complete'),
             dict(name='glue_evict_expired', tags=['C10', 'C08', 'C03', 'C04'], function='Cache::evict_expired', what='glue of evict_expired with both loop callees stubbed by recording havoc contracts: counters reduced by exactly what the callees report; scans run iff the policy is configured: complete for the glue'),
